@@ -378,3 +378,64 @@ def expected_pairs(sc):
         if g["complete"]:
             out += [(s["uid"], s["recv_uid"], s["sync"]) for s in g["sends"] if s["recv_uid"]]
     return out
+
+
+# ---------------------------------------------------------------------------------------------------------------------
+_HDMA = None
+
+
+def host_dma_fragments():
+    """step names of the Host-DMA / HCOLL / P2P protocol events, harvested from the CURRENT source
+    (categorize.py::classify_flex, the string literals tested inside its collective branch)"""
+    global _HDMA
+    if _HDMA is not None:
+        return _HDMA
+    import ast
+    repo = os.environ.get("AIU_REPO", "/repo")
+    out = []
+    try:
+        t = ast.parse(open(os.path.join(repo, "src/aiu_trace_analyzer/pipeline/categorize.py")).read())
+        for f in ast.walk(t):
+            if isinstance(f, ast.FunctionDef) and f.name in ("classify_flex", "_classify_host_dma_event", "_classify_p2p_rdma_event"):
+                for n in ast.walk(f):
+                    if isinstance(n, ast.Compare) and isinstance(n.ops[0], ast.In) and isinstance(n.left, ast.Constant) \
+                            and isinstance(n.left.value, str):
+                        x = n.left.value
+                        if any(k in x for k in ("Wait", "Send", "R5", "BcList", "Xseg", "DLM", "Wdone", "HCOLL Signal", "Notice")):
+                            out.append(x)
+    except Exception:  # noqa: BLE001
+        out = []
+    _HDMA = sorted(set(out)) or ["Wait for ACK"]
+    return _HDMA
+
+
+def add_host_dma(rng, sc, per_rank=None):
+    """Append Host-DMA style protocol slices (device events carrying CollGroup, named after the step names the two event
+    classifiers know) to every rank of a scenario that already went through add_chain_allreduce (needs sc.hbase).
+    They form their own collective group, to which every rank contributes; clock alignment ignores it as long as an
+    AllReduce group exists.  Ground truth goes to sc.truth like any other device slice."""
+    f = int(sc.freq)
+    frags = host_dma_fragments()
+    uid = 200000
+    for r, (H, _c0) in sorted(sc.hbase.items()):
+        last = max([t["true_ts"][4] for t in sc.truth.values() if t["rank"] == r and t.get("true_ts")] or [0])
+        c = last + 20000 + rng.randrange(0, 4096)
+        fn = [k for k in sc.files if k.startswith(f"rank{r}_")][0]
+        for _ in range(per_rank or rng.randrange(1, 4)):
+            gaps = [rng.randrange(1, 400), rng.randrange(1, 400), rng.randrange(1, 400), rng.randrange(1, 400)]
+            ts = [c]
+            for g in gaps:
+                ts.append(ts[-1] + g)
+            kw, a, b, tid = rng.choice([("DmaI", 0, 1, TID_DMAI), ("DmaO", 3, 4, TID_DMAO)])
+            uid += 1
+            u = f"h{uid}"
+            nm = f"{rng.choice(['Host DMA ', 'HCOLL ', ''])}{rng.choice(frags)} {kw}"
+            attr = {"TS" + str(i + 1): str(ts[i] % W) for i in range(5)}
+            attr.update({"Power": str(rng.randrange(1 << 20, 1 << 30)), "uid": u, "CollGroup": "HostDmaProtocol_7"})
+            t0, t1 = H + ts[a] / f, H + ts[b] / f
+            sc.files[fn].append({"name": nm, "ph": "X", "pid": r, "tid": tid, "ts": _grid_ok(t0), "dur": _grid_ok(t1 - t0),
+                                 "attr": attr})
+            sc.truth[u] = {"rank": r, "kind": "host_dma", "name": nm, "true_ts": list(ts), "start": t0, "end": t1,
+                           "device": True, "job": 0, "user_keys": [], "tid": tid, "coll": True}
+            c = ts[4] + rng.randrange(100, 3000)
+    return sc
